@@ -195,4 +195,103 @@ theorem C15_python_append (e : Entry) (v : Str) (ca : Option Str) (line : Nat) :
 example : (newWithOptions (some (joinWith SEMI ([OptItem.parsingDirs [[0x2f, 0x61]], .join, .parsingDirs [[0x2f, 0x62], [0x2f, 0x63]], .rootPrefix [0x2f, 0x72]].map OptItem.render)))).1.parseDirs = [[0x2f, 0x62], [0x2f, 0x63]] := by
   decide
 
+/-! ### JOIN_SAME_ENTRIES on whole entry lists -/
+
+
+/-- a definition without text: no value at all, or the empty text -/
+def Entry.emptyDef (e : Entry) : Bool :=
+  match e.value with
+  | none => true
+  | some v => v.isEmpty
+
+/-- how the value of the first definition changes when a later definition of the same key is met -/
+def joinVal (acc : Option Str) (ej : Entry) : Option Str :=
+  if ej.emptyDef then some [] else some (nlCat (acc.getD []) ((ej.value.getD []).dropWhile isSpace))
+
+theorem joinInto_value (ei ej : Entry) : (joinInto ei ej).value = joinVal ei.value ej := by
+  unfold joinInto joinVal Entry.emptyDef
+  simp only
+  cases ej.value <;> rfl
+
+theorem joinInto_gk (ei ej : Entry) : (joinInto ei ej).group = ei.group ∧ (joinInto ei ej).key = ei.key := ⟨rfl, rfl⟩
+
+/-- entry `i` of the joined list is entry `i` joined with everything behind it -/
+theorem C15_join_entry (es : List Entry) (i : Nat) (e : Entry) (h : es[i]? = some e) :
+    (joinSame es)[i]? = some (joinOne e (es.drop (i + 1))) := by
+  induction es generalizing i with
+  | nil => simp at h
+  | cons a as ih =>
+    cases i with
+    | zero => simp only [List.getElem?_cons_zero, Option.some.injEq] at h; subst h; simp [joinSame]
+    | succ n =>
+      simp only [List.getElem?_cons_succ] at h
+      simp only [joinSame, List.getElem?_cons_succ, List.drop_succ_cons]
+      exact ih n h
+
+theorem joinOne_gk (e : Entry) (later : List Entry) : (joinOne e later).group = e.group ∧ (joinOne e later).key = e.key := by
+  unfold joinOne
+  induction later generalizing e with
+  | nil => exact ⟨rfl, rfl⟩
+  | cons x xs ih =>
+    rw [List.foldl_cons]
+    split
+    · have := ih (joinInto e x); exact this
+    · exact ih e
+
+/-- the joined value is the first value folded with the later definitions **of the same section
+    and key**, in file order; definitions of other keys play no role -/
+theorem C15_join_value (e : Entry) (later : List Entry) :
+    (joinOne e later).value =
+      (later.filter (fun x => e.group == x.group && e.key == x.key)).foldl joinVal e.value := by
+  unfold joinOne
+  induction later generalizing e with
+  | nil => rfl
+  | cons x xs ih =>
+    rw [List.foldl_cons, List.filter_cons]
+    by_cases hx : (e.group == x.group && e.key == x.key) = true
+    · simp only [hx, if_true, List.foldl_cons]
+      have := ih (joinInto e x)
+      rw [(joinInto_gk e x).1, (joinInto_gk e x).2, joinInto_value] at this
+      exact this
+    · simp only [hx, Bool.false_eq_true, if_false]
+      exact ih e
+
+/-- **since its last empty definition**: whatever was defined up to and including an empty
+    definition is forgotten -/
+theorem C15_join_since_empty (v : Option Str) (pre post : List Entry) (z : Entry) (hz : z.emptyDef = true) :
+    (pre ++ z :: post).foldl joinVal v = post.foldl joinVal (some []) := by
+  rw [List.foldl_append, List.foldl_cons]
+  simp [joinVal, hz]
+
+/-- **concatenation in file order**: non-empty definitions are appended one per line, each without
+    its leading blanks -/
+theorem C15_join_concat (a : Str) (post : List Entry) (h : ∀ x ∈ post, x.emptyDef = false) :
+    post.foldl joinVal (some a) = some (a ++ post.flatMap (fun x => NL :: (x.value.getD []).dropWhile isSpace)) := by
+  induction post generalizing a with
+  | nil => simp
+  | cons x xs ih =>
+    rw [List.foldl_cons]
+    have hx := h x (by simp)
+    have : joinVal (some a) x = some (nlCat a ((x.value.getD []).dropWhile isSpace)) := by simp [joinVal, hx]
+    rw [this, ih _ (fun y hy => h y (List.mem_cons_of_mem _ hy))]
+    simp [nlCat]
+
+/-- the three together, for the first definition at position `i`: if the later definitions of the
+    key are `pre`, an empty one, then the non-empty `post`, the joined value is the lines of `post` -/
+theorem C15_join_spec (es : List Entry) (i : Nat) (e z : Entry) (pre post : List Entry)
+    (h : es[i]? = some e)
+    (hl : (es.drop (i + 1)).filter (fun x => e.group == x.group && e.key == x.key) = pre ++ z :: post)
+    (hz : z.emptyDef = true) (hp : ∀ x ∈ post, x.emptyDef = false) :
+    ∃ e', (joinSame es)[i]? = some e' ∧ e'.group = e.group ∧ e'.key = e.key ∧
+      e'.value = some (post.flatMap (fun x => NL :: (x.value.getD []).dropWhile isSpace)) := by
+  refine ⟨_, C15_join_entry es i e h, (joinOne_gk e _).1, (joinOne_gk e _).2, ?_⟩
+  rw [C15_join_value, hl, C15_join_since_empty _ pre post z hz, C15_join_concat [] post hp]
+  simp
+
+/-- `k=a`, `k=`, `k=b`, `k=  c` joined: the value of the first entry is `⏎b⏎c` -/
+example : ((joinSame [⟨NONE, [0x6b], some [0x61], none, none, 1, false⟩, ⟨NONE, [0x6b], none, none, none, 2, false⟩,
+    ⟨NONE, [0x6b], some [0x62], none, none, 3, false⟩, ⟨NONE, [0x6b], some [0x20, 0x20, 0x63], none, none, 4, false⟩])[0]?).map (·.value) =
+    some (some [0x0a, 0x62, 0x0a, 0x63]) := by decide
+
+
 end Econf
